@@ -122,6 +122,29 @@ func (ix *Index) HandledBefore(src string, idx int, at int) (ok bool, how string
 
 func engineOf(sc *Scenario) string { return sc.Engine }
 
+// nackMisattributed reports whether some DLQ record of a DIFFERENT origin
+// carries a scripted rejection error of record o.
+func (ix *Index) nackMisattributed(o rig.Lin) bool {
+	for i := range ix.Evs {
+		e := &ix.Evs[i]
+		if e.Kind != rig.KDstWrite || e.Role != "dlq" {
+			continue
+		}
+		for n, l := range e.Recs {
+			if n >= len(e.Out) || l.Idx < 0 || l.Origin() == o {
+				continue
+			}
+			m := e.Out[n]
+			for _, pfx := range []string{"vf-reject ", "vf-proc-error "} {
+				if strings.Contains(m, pfx+o.String()+" at ") || strings.Contains(m, pfx+o.String()+"/") {
+					return true
+				}
+			}
+		}
+	}
+	return false
+}
+
 // ---------------------------------------------------------------------------
 // C01
 
@@ -151,9 +174,14 @@ func OracleC01(ix *Index) ([]vp.Violation, Judged) {
 				continue
 			}
 			exp := ix.Expect(e.Comp, idx)
+			sub := exp.Class
+			if exp.Class == ClRejected && ix.nackMisattributed(rig.Lin{Src: e.Comp, Idx: idx}) {
+				// the engine dead-lettered ANOTHER record with this record's rejection
+				sub = "rejected/nack-misattributed-to-other-record"
+			}
 			vs = append(vs, vp.Violation{
 				Property: "C01", Class: "ack-before-confirmation",
-				Identity: fmt.Sprintf("C01/ack-before-confirmation/%s/%s", ix.Sc.Engine, exp.Class),
+				Identity: fmt.Sprintf("C01/ack-before-confirmation/%s/%s", ix.Sc.Engine, sub),
 				Detail:   fmt.Sprintf("source %s was acked record %d at event %d but %s", e.Comp, idx, i, missing),
 				Case:     ix.Sc,
 				Witness:  rig.Excerpt(ix.Evs, []int{i}, 12),
